@@ -357,7 +357,8 @@ def validate_shard(wd, prop, trace, scens, devs, verdict, tag, accept=None):
                 if '"op":"Done"' in x[:30]:
                     tip = json.loads(x).get("tip", tip)
             stale = ev.get("op") in ("AddSet", "TxSet") and ev.get("basis") not in (tip, None)
-            sig = "trace:%s:%s:unexplained%s" % (prop, ev.get("op"), ":stale-basis" if stale else "")
+            hostile = ev.get("op") == "AddSet" and (ev.get("basis") == 0 or any(x.get("bad") for x in ev.get("set", [])))
+            sig = "trace:%s:%s:unexplained%s" % (prop, ev.get("op"), ":hostile" if hostile else ":stale-basis" if stale else "")
             desc = "TLC: no action of Pool.tla explains event %d %s after %s" % (k, json.dumps(slim(ev)), json.dumps(slim(prev)))
         rejected += 1
         if accept is None or accept(sig):
@@ -437,7 +438,7 @@ def leg_t(wd, binary, prop, mode, verdict, devs, histories, steps, shards=8, tag
 ACCEPT = {
     "C14": r"^(audit:c14:|trace:C14:(AddSet|Lookup):|trace:C14:[A-Za-z]+:(Atomicity|KnownIffAllPooled|LookupExact|NoAliasing|TypeOK))",
     "C05": r"^(audit:c05:|trace:C05:(Obs|Mine|Submit|Revert|Apply|Done|Reset):|trace:C05:[A-Za-z]+:(PrefixValid|Retention|Retrievable|NoInvention|Minable|Mined|EvictOnlyWhenFull|TypeOK))",
-    "C13": r"^(audit:c13:|trace:C13:(Rebase|TxSet):|trace:C13:AddSet:unexplained:stale-basis|trace:C13:[A-Za-z]+:(Rebase|ParentsFirst|BasisIsTip|TxSet[A-Za-z]*|NoPanic))",
+    "C13": r"^(audit:c13:|trace:C13:(Rebase|TxSet):|trace:C13:AddSet:unexplained:(stale-basis|hostile)|trace:C13:[A-Za-z]+:(Rebase|ParentsFirst|BasisIsTip|TxSet[A-Za-z]*|NoPanic))",
 }
 
 
